@@ -91,6 +91,7 @@ type AScenario struct {
 	Keys          []string   `json:"keys"`                              // orchestration key fields
 	MetricKeys    []string   `json:"metric_keys,omitempty"`             // metricKeys of the configuration (default: host)
 	Out2          bool       `json:"second_output,omitempty"`           // a second output/buffer pair with different serialization settings (reference count 2 per record)
+	AcceptErrs []int `json:"accept_errors_before_connection,omitempty"` // the accept(2) that would return the k-th connection first fails once with a transient error (EMFILE)
 	Fine          bool       `json:"fine_yields,omitempty"`             // every larger function entry of the agent is a preemption point in this run
 	Datadog       bool       `json:"datadog_output,omitempty"`          // a Datadog output/buffer pair whose consumer never takes a chunk: every chunk it makes ends up in its queue root
 	Poison        bool       `json:"poison_released_buffers,omitempty"` // released backing buffers are overwritten with 0xEE (in the other runs they keep their bytes until reused, which is what lets a stale reference read ANOTHER record)
@@ -667,6 +668,12 @@ func (w *worldA) tweak(r *simrt.Rand, s *AScenario, end int) {
 		if s.Profile == "c07big" {
 			s.MsgMax = 1024 * 1024
 		}
+		if r.Bool(35) {
+			// "keeps accepting connections" under a failing system call: too many open files for one accept
+			for i, n := 0, 1+r.Intn(2); i < n; i++ {
+				s.AcceptErrs = append(s.AcceptErrs, r.Intn(len(s.Clients)+1))
+			}
+		}
 	case "c11dd":
 		// Datadog format next to a Forward output; a third of the runs aim a burst at the record limit, a third at the size limit
 		s.Datadog = true
@@ -973,6 +980,9 @@ type aRun struct {
 	notes                []string
 	stopping             bool
 	srv2                 *aServer // upstream of the second output, when the scenario has one
+	acceptSeen           int          // connections the agent's accept has returned so far
+	acceptErrDone        map[int]bool // injected accept errors that have fired
+	gaveUpConnecting     bool         // a client could not reach the listener for 100 simulated seconds while the agent was running
 	stopHung             bool
 	metricsErr           string        // first failure to gather the agent's metrics
 	stopSince            time.Duration // simulated time+1 at which a stop in progress was requested; 0 when none
@@ -997,7 +1007,7 @@ var aTmpDir string
 func (w *worldA) Run(t *testing.T, profile string, sc any, cfg simrt.Config) *Outcome {
 	s := sc.(*AScenario)
 	out := &Outcome{}
-	r := &aRun{s: s, out: out}
+	r := &aRun{s: s, out: out, acceptErrDone: map[int]bool{}}
 	logger.SetOutput(&r.logbuf)
 	logger.SetLogLevel(logger.InfoLevel)
 	if os.Getenv("VERIF_DEBUG") != "" {
@@ -1123,6 +1133,21 @@ func (r *aRun) startAgent() bool {
 		return false
 	}
 	r.agent = a
+	if l := r.net.ListenerAt(aInputAddr); l != nil && len(r.s.AcceptErrs) > 0 {
+		l.OnAccept = func() syscall.Errno {
+			k := r.net.Stats.Accepted + r.net.Stats.AcceptErrors
+			_ = k
+			for i, at := range r.s.AcceptErrs {
+				if at == r.acceptSeen && !r.acceptErrDone[i] {
+					r.acceptErrDone[i] = true
+					r.out.fault("accept_fails_with_emfile", 1)
+					return syscall.EMFILE
+				}
+			}
+			r.acceptSeen++
+			return 0
+		}
+	}
 	r.notify()
 	return true
 }
